@@ -62,6 +62,10 @@ CLAIMED = {
          "Machine-checked theorems over an executable model of tbot.log.EventIO (write/_print_lines/close) and of the chunked reader in tools/logparser.py: the stored message of an event is the concatenation of everything written (each write sanitised as documented), for ANY splitting of the text over write calls the terminal shows exactly the stored text with the prefix at every line start plus a final newline, nothing is printed above the verbosity threshold, erasing the inserted prefixes from the printed text leaves the stored text (each character once), and the parser returns every document of a log file in order for EVERY read size n > 0 - proved for any codec with the framing properties and for the concrete brace scanner. Tied to /repo by running the real EventIO with captured stdout, the real log file writer and the real logparser on generated event sequences and chunk sizes. json.dumps/json.JSONDecoder are an environment model (the scanner is validated against raw_decode on every run).",
          "Trusted: Coq kernel + vm_compute; hand-written model coq/LogEvent.v; CPython's json module modelled by a brace scanner (validated, not verified); terminal colour codes outside the model (CLICOLOR off).",
          "DESIGN.md 8/C17"),
+ "C19": ("Coq proof that _hush_quote is lossless through a model of U-Boot's hush parser (induction over argument lists and strings) and that exec / exec0 / env return exactly output, status and value for every fragmentation of the console's reaction (composition of the channel theorems of C02/C03) + correspondence of the real UBootShell with the model over a simulated console",
+         "Machine-checked theorems: for every argument list without CR/LF/0x03/0x04 the bytes tbot sends are read by the hush model as exactly the arguments (one word each, no expansion, separator or comment); for every fragmentation, delay pattern and partial-write behaviour exec returns exactly the text between the echoed command and the next prompt and the printed status, sends exactly the two lines and leaves the channel in sync - also for the crc32/'=> ' special case; exec0 raises iff the status is non-zero; env set-then-get returns the value (theorem for ASCII values, non-ASCII by correspondence). The hush parser itself is an environment model transcribed from cli_hush.c (no U-Boot in the sandbox; cross-checked against a second transcription only). Outputs containing the prompt at an inspection point are outside the theorems (sentinel-prompt limitation, hypothesis prompt_only_at_end).",
+         "Trusted: Coq kernel + vm_compute; hand-written models coq/Hush.v, coq/Session.v, coq/Channel.v; the simulated console of the harness; classic hush parser semantics as transcribed.",
+         "DESIGN.md 8/C19"),
 }
 NOT_YET = "check not built yet (work in progress; will be claimed once its Coq theorems and correspondence check exist)"
 
